@@ -47,6 +47,7 @@ struct ParamSpec {
     bool untyped = false, unnamed = false;
 };
 ParamSpec paramSpecOf(const Op &op);
+bool uniqueModuloCase(const ezc3d::c3d &c);   // no two groups / parameters of one group differ only by letter case (they would collide in a file)
 
 struct Interp;
 struct Listener {
